@@ -5,7 +5,7 @@ import ast
 from typing import Dict, List, Optional, Tuple
 
 from ..absval import Lin, Undecided, linform
-from ..core import FuncInfo, call_name, dotted, local_defs, norm, origin, parent_map, walk_local
+from ..core import FuncInfo, call_name, dotted, kwarg, local_defs, norm, origin, parent_map, walk_local
 from ..facts import guards_of, enclosing_loops
 
 
@@ -70,7 +70,16 @@ def offset_of(dc: ast.DictComp) -> Optional[int]:
     try:
         lf = linform(dc.value, lambda n: "i" if norm(n) == idx else None)
         if lf.get("i") == 1:
-            return int(lf.get(1, 0))
+            # enumerate(X, start=k) / enumerate(X, k): positions are counted from k
+            st = kwarg(g.iter, "start") if isinstance(g.iter, ast.Call) else None
+            if st is None and isinstance(g.iter, ast.Call) and len(g.iter.args) > 1:
+                st = g.iter.args[1]
+            base = 0
+            if st is not None:
+                if not (isinstance(st, ast.Constant) and isinstance(st.value, int)):
+                    return None
+                base = st.value
+            return int(lf.get(1, 0)) + base
     except Undecided:
         pass
     return None
@@ -216,6 +225,26 @@ def label_builder_shape(fi: FuncInfo, node_keys: str, edge_keys: str, directed: 
                             "a pair of positions gets '1:' + the selected attributes of exactly the edge between them, or '0:' if there is none", inner[0]))
             else:
                 obs.append(("edge-bit", None, f"{perm}[i] / {perm}[j]", "position-to-node translation not recognised", o))
+    if not loops:
+        # functional form: one generator over combinations(perm, 2) / permutations(perm, 2) joined with '|'
+        it_pat = f"permutations({perm}, 2)" if directed else f"combinations({perm}, 2)"
+        bit1s = [f"'1:' + ':'.join((str($x) for $x in tuple((self._freeze({G}[$vi][$vj].get($a, '')) for $a in self.{edge_keys}))))",
+                 f"'1:' + ':'.join((str(self._freeze({G}[$vi][$vj].get($a, ''))) for $a in self.{edge_keys}))"]
+        bit0 = f"'0:' + ':'.join(('' for $u in self.{edge_keys}))"
+        for st, b in pfind("$es = $$e", fn, into_nested=False):
+            if not isinstance(st, ast.Assign):
+                continue
+            for b1 in bit1s:
+                m = pmatch(f"'|'.join(({b1} if {G}.has_edge($vi, $vj) else {bit0} for $vi, $vj in {it_pat}))", st.value)
+                if m:
+                    bits_name = "<generator>"
+                    ok_pairs = True
+                    obs.append(("edge-bit", True, st, "a pair of positions gets '1:' + the selected attributes of exactly the edge between them, or '0:' if there is none", fn))
+                    rets_ = sorted([n for n in walk_local(fn) if isinstance(n, ast.Return)], key=lambda n: n.lineno)
+                    ok_ret_f = bool(rets_) and ns is not None and pmatch("$ns + '||' + $es", rets_[-1].value, {"ns": ns, "es": b["es"]}) is not None
+                    obs.append(("pairs", True, it_pat, ("every ordered pair of distinct positions contributes an arc bit" if directed else "every unordered pair of positions contributes an edge bit"), fn))
+                    obs.append(("return", ok_ret_f, rets_[-1] if rets_ else "return", "the label is the node segment followed by all pair bits (nothing dropped)", fn))
+                    return obs
     obs.append(("pairs", ok_pairs, [norm(l.iter) for l in loops],
                 ("every ordered pair of distinct positions contributes an arc bit" if directed else "every unordered pair of positions contributes an edge bit"), fn))
     # return NS + '||' + '|'.join(bits)
